@@ -1526,6 +1526,19 @@ func c07PercentTriple(p *Prog, fi *FuncInfo) c07Triple {
 				t.bad = fmt.Sprintf("the three stores go to indices %d,%d,%d, not consecutive ones", a, b, c)
 				return t
 			}
+		} else if offs, ok := c07OffsetTriple(info, g[0].index, g[1].index, g[2].index); ok {
+			// b[j], b[j+1], b[j+2] over one variable: consecutive by construction
+			type so struct {
+				off int64
+				i   int
+			}
+			order3 := []so{{offs[0], 0}, {offs[1], 1}, {offs[2], 2}}
+			sort.SliceStable(order3, func(a, b int) bool { return order3[a].off < order3[b].off })
+			if order3[1].off != order3[0].off+1 || order3[2].off != order3[0].off+2 {
+				t.bad = fmt.Sprintf("the three stores go to offsets %d,%d,%d of the index, not consecutive ones", order3[0].off, order3[1].off, order3[2].off)
+				return t
+			}
+			g = []store{g[order3[0].i], g[order3[1].i], g[order3[2].i]}
 		} else {
 			// same index variable, incremented exactly once between consecutive stores, same statement list
 			par := p.Parents(fi.File)
@@ -2264,6 +2277,9 @@ func c07HTML(r *Run, hs []*c07Escaper) {
 					reason = rs
 				}
 			}
+			if reason == "" {
+				reason = c07InheritedAmp(r, fi, b)
+			}
 			if reason != "" {
 				r.Ob("R-3", c07Key(fi, b)+"#excludes:ampersand", fi.Decl.Pos()).Trivial("exception: %s", reason)
 			} else {
@@ -2367,4 +2383,79 @@ func c07TripleObls(r *Run, rule string, fi *FuncInfo) {
 			o2.Bad("digit alphabet %q is not the 16 hexadecimal digits in order", t.alphabet)
 		}
 	}
+}
+
+// c07InheritedAmp: an escaper shared by several wrappers (escapeHTML(w, s, entities)) inherits the
+// ampersand exception of a documented wrapper for the binding that wrapper fixes, when every call of the
+// shared function with those constant boolean arguments is made by a wrapper listed in c07AmpExceptions.
+// (Added after a maintenance edit merged htmlEscape and htmlNoEntitiesEscape into one function.)
+func c07InheritedAmp(r *Run, fi *FuncInfo, b c07Binding) string {
+	if len(b.vals) == 0 {
+		return ""
+	}
+	sig := fi.Obj.Type().(*types.Signature)
+	matches := func(info *types.Info, c *ast.CallExpr) bool {
+		n := 0
+		for i := 0; i < sig.Params().Len() && i < len(c.Args); i++ {
+			want, has := b.vals[sig.Params().At(i).Name()]
+			if !has {
+				continue
+			}
+			tv, ok := info.Types[c.Args[i]]
+			if !ok || tv.Value == nil || tv.Value.String() != map[bool]string{true: "true", false: "false"}[want] {
+				return false
+			}
+			n++
+		}
+		return n == len(b.vals)
+	}
+	reason := ""
+	for _, caller := range r.P.Funcs("internal/runtime") {
+		if r.P.isTestFile(caller.File) || caller.Obj == nil || caller.Obj == fi.Obj {
+			continue
+		}
+		for _, c := range calls(caller.Decl.Body, true) {
+			if callee(caller.Pkg.TypesInfo, c) != fi.Obj || !matches(caller.Pkg.TypesInfo, c) {
+				continue
+			}
+			why, ok := c07AmpExceptions[funcKey(caller.Obj)]
+			if !ok {
+				return "" // reached with this binding from a function that is not a documented exception
+			}
+			reason = "through its wrapper " + funcKey(caller.Obj) + ", " + why
+		}
+	}
+	return reason
+}
+
+// c07OffsetTriple recognises three index expressions v+a, v+b, v+c over one variable v (a missing offset
+// is 0) and returns the offsets.
+func c07OffsetTriple(info *types.Info, es ...ast.Expr) ([3]int64, bool) {
+	var out [3]int64
+	var base types.Object
+	for i, e := range es {
+		e = ast.Unparen(e)
+		off := int64(0)
+		if be, ok := e.(*ast.BinaryExpr); ok && be.Op == token.ADD {
+			if k, ok := intValue(info, be.Y); ok {
+				e, off = ast.Unparen(be.X), k
+			} else if k, ok := intValue(info, be.X); ok {
+				e, off = ast.Unparen(be.Y), k
+			}
+		}
+		id, ok := e.(*ast.Ident)
+		if !ok || info.Uses[id] == nil {
+			return out, false
+		}
+		if base == nil {
+			base = info.Uses[id]
+		} else if info.Uses[id] != base {
+			return out, false
+		}
+		out[i] = off
+	}
+	if out[0] == out[1] && out[1] == out[2] {
+		return out, false // the same expression three times: the incremented-variable form
+	}
+	return out, true
 }
